@@ -104,7 +104,7 @@ PROPERTIES = {
     ),
     "C16": dict(
         modules=["contracts.c16_schema"],
-        bounded=[_bounded.lazy("contracts.e2e_schema", "bounded_round_trip")],
+        bounded=[_bounded.lazy("contracts.e2e_schema", "bounded_round_trip"), _bounded.lazy("contracts.e2e_fuzz_schema", "bounded_generated_schemas")],
         explanation="schema generator functions against the constructor-call AST that rebuilds the object; end-to-end round trip as bounded stand-in",
         assumptions=["graphql-core constructors: keyword -> attribute; ast.Constant printed by repr and read back equal (str/int/float/bool/None/list/dict)"],
     ),
